@@ -41,6 +41,7 @@ type Engine struct {
 	initGhost map[string]Value
 	restObjs  map[string]*Obj
 	entries   map[string]*EntryInfo
+	ghostSorts map[string]string
 	extraTerms []*Term
 	obls      []*Obligation
 	assumpLog map[string]bool
@@ -73,6 +74,7 @@ func newEngine() *Engine {
 		initGhost: map[string]Value{},
 		restObjs:  map[string]*Obj{},
 		entries:   map[string]*EntryInfo{},
+		ghostSorts: map[string]string{},
 		assumpLog: map[string]bool{},
 		ordCache:  map[*ssa.Function]map[ssa.Instruction]int{},
 		loopCache: map[*ssa.Function]*loopInfo{},
